@@ -106,6 +106,12 @@ def run_case(case, col=None):
                              sample={'type': ir.show_type(T), 'der': e.hex()[:120], 'rewritten': e2.hex()[:120],
                                      'rewrite': kind, 'node': where, 'decoder': dec, 'guided': guided})
                 sub = '%s-%s' % (dec.lower(), 'guided' if guided else 'schemaless')
+                if not d.ok and kind == 'true':
+                    # the same decoder asked for plain Python values (native=True) enforces the same restriction
+                    dn = lib.decode(dec, e2, sch if guided else None, native=True)
+                    if dn.ok:
+                        F(sub + '-native', 'accepted:' + kind, '%s.decode(native=True) accepted the %s rewrite at %s: %s (DER %s)' % (
+                            dec.lower(), kind, where, e2.hex()[:120], e.hex()[:120]), obs={'rewrite': idx, 'kind': kind, 'where': where})
                 if d.ok:
                     F(sub, 'accepted:' + kind, '%s.decode accepted the %s rewrite at %s: %s (DER %s)' % (
                         dec.lower(), kind, where, e2.hex()[:120], e.hex()[:120]), obs={'rewrite': idx, 'kind': kind, 'where': where})
